@@ -12,7 +12,7 @@ package opchild
 //@   requires forall a int64, b int64 :: a <= b && b < height && HistoricalInfos[a] != None ==> HistoricalInfos[b] != None                                           // INV_HIST
 //@   assumes height >= 0                                                                                                                                             // A-HEIGHT
 //@   ensures err == nil ==> HistoricalInfos[height] != None || val(Params).HistoricalEntries == 0                                                                   // C13: begin_block_records_the_current_height
-//@   assigns HistoricalInfos                                                                                                                                          // C14,C13: the plan is applied at the END of block h, nothing else moves at the beginning
+//@   assigns HistoricalInfos                                                                                                                                          // C13: only_the_historical_record_moves_at_the_beginning_of_a_block
 
 //@ func EndBlocker
 //@   let h := height % 18446744073709551616
